@@ -86,6 +86,12 @@ Proof.
     + apply IH. exact Hr.
 Qed.
 
+Lemma pos_set_fnums g v p : map e_fnum (pos_set g v p) = map e_fnum p.
+Proof.
+  induction p as [|[k [f w]] r IH]; [reflexivity|]. cbn [pos_set]. destruct (f =? g); cbn [map]; [reflexivity|].
+  rewrite IH. reflexivity.
+Qed.
+
 (* ------------------------------------------------------------------ header and trailer encode alike *)
 Lemma owned_suppressed allow s t0 t : part_post s t0 t -> owned_ok allow s t0 = true ->
   forall f, present_in (mb_fp t0) f = true ->
@@ -103,6 +109,7 @@ Proof.
   intros PP Ho b. pose proof (pp_fp _ _ _ PP) as Hfp. pose proof (pp_pos _ _ _ PP) as Hpos.
   pose proof (pp_groups _ _ _ PP c) as Hg. pose proof (pp_unknown _ _ _ PP) as Hu.
   pose proof (pp_unknown_s _ _ _ PP) as Hus. pose proof (owned_suppressed false s t0 t PP Ho) as Hs.
+  pose proof (pp_present _ _ _ PP) as Hpres.
   destruct s as [fp subs fields pos groups unknown]. destruct t as [fp' subs' fields' pos' groups' unknown'].
   cbn [mb_fp mb_pos mb_groups mb_unknown] in *. subst unknown unknown'.
   rewrite !mb_encode_unfold. intros H.
@@ -111,7 +118,7 @@ Proof.
   - exact H.
   - intros f Hf. destruct (Hs f Hf) as [Hx|[Hx _]]; [exact Hx|discriminate].
   - exact Hpos.
-  - intros f r _ Hgi Hfr Hm. apply Hg; assumption.
+  - intros f r Hin Hgi Hfr Hm. apply Hg; try assumption. apply Hpres. exact Hin.
   - exact E.
 Qed.
 
@@ -122,6 +129,7 @@ Proof.
   pose proof (pp_groups _ _ _ PP c) as Hg. pose proof (pp_unknown _ _ _ PP) as Hu.
   pose proof (pp_unknown_s _ _ _ PP) as Hus. pose proof (owned_suppressed true s t0 t PP Ho) as Hs.
   pose proof (pp_nodup _ _ _ PP) as Hnd. pose proof (pp_owned _ _ _ PP) as Hown.
+  pose proof (pp_present _ _ _ PP) as Hpres.
   destruct s as [fp subs fields pos groups unknown]. destruct t as [fp' subs' fields' pos' groups' unknown'].
   cbn [mb_fp mb_pos mb_groups mb_unknown] in *. subst unknown unknown'.
   rewrite !set_value_unfold, !mb_encode_unfold. intros H.
@@ -133,7 +141,7 @@ Proof.
   - intros f Hf. apply andb_true_iff in Hf. destruct Hf as [Hf1 Hf2]. apply negb_true_iff in Hf2. apply N.eqb_neq in Hf2.
     destruct (Hs f Hf1) as [Hx|[_ Hx]]; [exact Hx|contradiction].
   - apply pos_set_rel; assumption.
-  - intros f r _ Hgi Hfr Hm. apply Hg; [exact Hgi| |exact Hm].
+  - intros f r Hin Hgi Hfr Hm. apply Hg; [apply Hpres; rewrite <- (pos_set_fnums Common_MsgType ty); exact Hin|exact Hgi| |exact Hm].
     destruct (present_in (mb_fp t0) f) eqn:Ep; [|reflexivity].
     destruct (Hown f Ep) as [Hng _]. congruence.
   - exact E.
